@@ -36,9 +36,23 @@ def random_opts(rng):
 
 
 def drive(a, rng, opts=None, samples=None):
+    try:
+        return drive_(a, rng, opts, samples)
+    except Exception as e:      # simplify (or simplifying its own output again) failed on a valid input
+        import traceback
+        return dict(error="%s: %s" % (type(e).__name__, e), tb=traceback.format_exc()[-1500:], a=a)
+
+
+def drive_(a, rng, opts=None, samples=None):
     cmap, tmap = gen.random_maps(rng)
     tables = gen.build_tables(a, cmap, tmap)
     abstr.decorate(tables, rng, edge_metadata=False)   # simplify refuses edges with metadata (documented)
+    # extra (non-sample) flag bits must survive simplify
+    fl = tables.nodes.flags.copy()
+    for u in range(len(fl)):
+        if rng.random() < 0.3:
+            fl[u] |= rng.choice([2, 4, 1 << 20])
+    tables.nodes.flags = fl
     tables.build_index()
     ts = tables.tree_sequence()
     N = ts.num_nodes
@@ -83,6 +97,10 @@ def run():
     for i in range(2000 if QUICK else 30000):
         a = gen.random_abstract(rng, N=rng.randint(2, 8), K=rng.randint(1, 5), max_edges=14, nsites=3, nmuts=4)
         cases.append(drive(a, rng))
+    for c in [c for c in cases if "error" in c]:
+        chk.note_case(c["a"], True)
+        chk.violation("simplify raised on a valid input (or on its own output): %s\n%s" % (c["error"], c["tb"]), c)
+    cases = [c for c in cases if "error" not in c]
     # binding self-test
     corrupted = []
     for c in cases:
